@@ -739,6 +739,52 @@ def plain_state(obj):
     return out
 
 
+def extras(agent):
+    """further observations used by C01 only (kept out of structure() so that other drivers are unaffected):
+       tree    per network attribute, the (sub-module name, class name) list of the module tree -- a rebuilt network must
+               have the same classes (activation / normalisation layers do not show in a state dict);
+       types   Python / numpy type name of every plain attribute (an int that comes back as a float is not the same);
+       grads   data pointers of the .grad tensors currently held by the agent's parameters."""
+    a = unwrap(agent)
+    tree, grads = {}, []
+    for n in net_names(a):
+        sig = []
+        for m in _modules_of(getattr(a, n)):
+            m = getattr(m, "_orig_mod", m)
+            sig.append([[mn, type(sub).__name__] for mn, sub in m.named_modules()])
+            for p_ in m.parameters():
+                if p_.grad is not None and p_.grad.numel() > 0:
+                    grads.append(p_.grad.data_ptr())
+        tree[n] = hashlib.sha1(json.dumps(sig).encode()).hexdigest()[:12]
+    items = dict(vars(a))
+    for k, v in EvolvableAlgorithm.inspect_attributes(a).items():
+        items.setdefault(k, v)
+    types = {k: type(v).__name__ for k, v in sorted(items.items())
+             if k not in PLAIN_IGNORE and not callable(v) and _plain(v)[0] and not isinstance(v, (list, tuple, dict))}
+    return {"tree": tree, "types": types, "grads": grads}
+
+
+def poke(agent, seed):
+    """extreme but legal magnitudes written into the first weight of every network and into the ext tensors: huge, tiny,
+    negative zero, infinities and NaN -- a copy must reproduce them bit for bit"""
+    a = unwrap(agent)
+    vals = [1e30, -1e30, 1e-42, -0.0, float("inf"), float("-inf"), float("nan"), 3.0000002]
+    with torch.no_grad():
+        for n in net_names(a):
+            for m in _modules_of(getattr(a, n)):
+                ps = [p_ for p_ in getattr(m, "_orig_mod", m).parameters() if p_.numel() >= 2]
+                if ps:
+                    flat = ps[-1].view(-1)      # last parameter tensor (an output bias): keeps forward passes finite enough
+                    for k in range(min(flat.numel(), 2)):
+                        flat[k] = vals[(int(seed) + k) % 4]
+        for name, cls, ptr, fp in slots(a):
+            pass
+        for k, v in sorted(vars(a).items()):
+            if isinstance(v, torch.Tensor) and v.is_floating_point() and v.numel() >= 2 and not v.requires_grad:
+                v.view(-1)[0] = vals[(int(seed) + 4) % 8]
+                v.view(-1)[1] = vals[(int(seed) + 6) % 8]
+
+
 def _jsonable(v):
     return [float(x) if isinstance(x, (int, float, np.integer, np.floating)) else str(x) for x in v]
 
